@@ -45,7 +45,7 @@ CONST_HEADS = ["HCInfer", "HCPlaceholder", "HCConcrete", "CVar"]
 class IrGen:
     def __init__(self, rng, max_depth=4, max_width=3, nids=4, free_levels=2, nidx=3, nuniv=3, ninfer=4,
                  bound_vars=True, infer=True, placeholders=True, aliases=True, dyn=True, fnptr=True,
-                 errors=True, const_ty_flags=False, leaf_bias=0.35, ty_heads=None, disciplined=False):
+                 errors=True, const_ty_flags=False, leaf_bias=0.35, ty_heads=None, disciplined=False, infer_disjoint=False):
         self.r = rng
         self.max_depth = max_depth
         self.max_width = max_width
@@ -67,6 +67,8 @@ class IrGen:
         # disciplined: variable index determines its kind (i%3: 0 type, 1 lifetime, 2 const) and const
         # variables have type usize, so that [VTy, VLt, VConst] * 2 are valid binder kinds for any level
         self.disciplined = disciplined
+        # infer_disjoint: type variables ?0,?1 (General) ?2 (Integer) ?3 (Float), lifetime variables ?4,?5, const ?6,?7
+        self.infer_disjoint = infer_disjoint
 
     # -- helpers -----------------------------------------------------------------------
     def id(self):
@@ -130,6 +132,9 @@ class IrGen:
             d, i = self.bv(binders)
             return ("Var", "STy", d, i)
         if k == "infer":
+            if self.infer_disjoint:
+                v = self.r.randrange(4)
+                return node(("HInfer", v, ["General", "General", "Integer", "FloatVar"][v]))
             return node(("HInfer", self.r.randrange(self.ninfer), self.r.choice(TVKS)))
         if k == "ph":
             return node(("HPlaceholder", self.r.randrange(self.nuniv), self.r.randrange(self.nidx)))
@@ -154,7 +159,7 @@ class IrGen:
             d, i = self.bv(binders, 1)
             return ("Var", "SLt", d, i)
         if k == "infer":
-            return node(("HLInfer", self.r.randrange(self.ninfer)))
+            return node(("HLInfer", 4 + self.r.randrange(2) if self.infer_disjoint else self.r.randrange(self.ninfer)))
         if k == "ph":
             return node(("HLPlaceholder", self.r.randrange(self.nuniv), self.r.randrange(self.nidx)))
         return node("HLError")
@@ -188,7 +193,7 @@ class IrGen:
             d, i = self.bv(binders, 2)
             return ("CVar", d, i, USIZE if self.disciplined else cty)
         if k == "infer":
-            return node(("HCInfer", self.r.randrange(self.ninfer)), [cty])
+            return node(("HCInfer", 6 + self.r.randrange(2) if self.infer_disjoint else self.r.randrange(self.ninfer)), [USIZE if self.infer_disjoint else cty])
         return node(("HCPlaceholder", self.r.randrange(self.nuniv), self.r.randrange(self.nidx)), [cty])
 
     # -- compound ------------------------------------------------------------------------
